@@ -39,14 +39,23 @@ func init() {
 			return nil
 		})
 		db.Close()
-		root := command.NewRootCommand()
-		root.SetArgs([]string{"check", args[0]})
-		var sink bytes.Buffer
-		root.SetOut(&sink)
-		root.SetErr(&sink)
 		cli := 0
-		if err := root.Execute(); err != nil {
-			cli = 1
+		if exe := os.Getenv("BBOLT_EXE"); exe != "" {
+			// the real command-line tool (built from /repo's cmd/bbolt by the driver): its EXIT STATUS is what counts
+			cmd := exec.Command(exe, "check", args[0])
+			cmd.Stdout, cmd.Stderr = nil, nil
+			if err := cmd.Run(); err != nil {
+				cli = 1
+			}
+		} else {
+			root := command.NewRootCommand()
+			root.SetArgs([]string{"check", args[0]})
+			var sink bytes.Buffer
+			root.SetOut(&sink)
+			root.SetErr(&sink)
+			if err := root.Execute(); err != nil {
+				cli = 1
+			}
 		}
 		fmt.Printf("lib=%d cli=%d\n", n, cli)
 		return nil
@@ -244,9 +253,26 @@ func c19Main(args []string) error {
 				})
 			}
 		}
+		// a page's overflow count raised by one so that its run swallows the next page, which is another reachable page:
+		// that page is then referenced twice (once as itself, once as a continuation)
+		isTree := map[int]bool{}
+		for _, p := range append(append([]int{}, leaves...), branches...) {
+			isTree[p] = true
+		}
 		for _, p := range append(append([]int{}, leaves...), branches...) {
 			p := p
-			for _, fl := range []int{0, 4, 16, 3, 0x20} {
+			h := readPg(base, ps, p)
+			if isTree[p+h.ov+1] {
+				add(func() {
+					img := clone()
+					binary.LittleEndian.PutUint32(img[p*ps+12:], uint32(h.ov+1))
+					emit(fmt.Sprintf("mut overflow-overlap %d", p), img)
+				})
+			}
+		}
+		for _, p := range append(append([]int{}, leaves...), branches...) {
+			p := p
+			for _, fl := range []int{0, 4, 16, 3, 0x20, 0x12, 0x06} {
 				fl := fl
 				add(func() {
 					img := clone()
